@@ -18,7 +18,8 @@ func oracle(ops, outs []string) *corr.Violation {
 		return &corr.Violation{Signature: "C31:" + sig, Message: fmt.Sprintf("op %d %q answered %q: %s", i, ops[i], outs[i], msg), Ops: ops, Impl: outs}
 	}
 	n := 0
-	var pools [][]int
+	var pools [][]int   // pool of the magic block in force for each slot's round — as the REAL chain's GetMagicBlock(round) says
+	var mbPools [][]int // every installed magic block's miner set
 	slotOf := map[string]int{}
 	inPool := func(blk string, j int) bool {
 		sl := slotOf[blk]
@@ -115,16 +116,24 @@ func oracle(ops, outs []string) *corr.Violation {
 					all[j] = j
 				}
 				pools, slotOf = [][]int{all}, map[string]int{}
+				mbPools = pools
 				validFrom, attached, unverifiedInBlock = map[string]map[int]bool{}, map[string][]string{}, map[string]bool{}
 				encSeen, reenc = map[string]map[string]bool{}, map[string]bool{}
 			}
 		case "miners2":
-			if len(w) == 3 && out == "ok" {
+			if (len(w) == 3 || len(w) == 5) && strings.HasPrefix(out, "ok") {
 				l0, _ := intList(w[1])
 				l1, _ := intList(w[2])
 				pools, slotOf = [][]int{l0, l1}, map[string]int{}
+				mbPools = [][]int{l0, l1}
 				n = 0
-				for _, p := range pools {
+				if strings.HasPrefix(out, "ok mb=") {
+					// which magic block governs each slot's round: the real chain's answer
+					if ix, ok := intList(strings.TrimPrefix(out, "ok mb=")); ok && len(ix) == 2 && ix[0] < 2 && ix[1] < 2 {
+						pools = [][]int{mbPools[ix[0]], mbPools[ix[1]]}
+					}
+				}
+				for _, p := range mbPools {
 					for _, j := range p {
 						if j+1 > n {
 							n = j + 1
@@ -190,7 +199,17 @@ func oracle(ops, outs []string) *corr.Violation {
 		thr := thrOf(blk)
 		if treated && len(validFrom[blk]) < thr {
 			what := fmt.Sprintf("block %s is treated as notarized; only %d distinct miners of its round's magic block delivered a valid ticket (threshold %d)", blk, len(validFrom[blk]), thr)
+			otherThr := 1 << 30
+			for _, p := range mbPools {
+				if t := (len(p)*66 + 99) / 100; t < thr {
+					otherThr = t
+				}
+			}
 			switch {
+			case invalidInMsg == 0 && dupsInMsg == 0 && foreignInMsg == 0 && !unverifiedInBlock[blk] && !reenc[blk] && len(validFrom[blk]) >= otherThr:
+				// only valid tickets of distinct miners of the round's magic block are involved, fewer than ITS threshold,
+				// but enough for the threshold of another installed magic block
+				return mk(i, "threshold-from-other-magic-block", what)
 			case (w[0] == "notarization" || w[0] == "nblock" || w[0] == "ticket") && foreignInMsg > 0 && !unverifiedInBlock[blk]:
 				// a verifying path accepted tickets of somebody who is no miner of the magic block in force for the round
 				return mk(i, "non-member-tickets-counted", what)
@@ -202,7 +221,7 @@ func oracle(ops, outs []string) *corr.Violation {
 			case unverifiedInBlock[blk]:
 				// tickets attached to a received block object were merged into the block and counted without verification
 				return mk(i, "attached-tickets-counted-unverified", what)
-			case reenc[blk] && w[0] != "notarization" && w[0] != "nblock":
+			case reenc[blk] && ((w[0] != "notarization" && w[0] != "nblock") || (invalidInMsg == 0 && dupsInMsg == 0 && foreignInMsg == 0)):
 				// one miner's valid ticket, received in two textual encodings of the same signature, was counted twice
 				return mk(i, "reencoded-ticket-counted-twice", what)
 			default:
